@@ -10,7 +10,7 @@ shims/selftest.py (concrete mode).
 """
 import numpy as real_np
 import z3
-from symx.core import SymInt, SymBool, is_sym, b_and, b_or, Unsupported, eng, mk, term, mkbool
+from symx.core import SymInt, SymBool, is_sym, b_and, b_or, Unsupported, eng, mk, term, mkbool, fx
 from .lazybytes import LazyBytes, Src, ZERO
 
 
@@ -97,14 +97,49 @@ def _norm_int(i, n):
     return i
 
 
+class DStr(str):
+    """dtype name that also compares equal to the numpy dtype / scalar type it names (arr.dtype == np.float32)."""
+    def __eq__(self, o):
+        if isinstance(o, str):
+            return str.__eq__(self, o)
+        try:
+            return str.__eq__(self, _dtype_name(o))
+        except Unsupported:
+            return False
+
+    def __ne__(self, o):
+        return not self.__eq__(o)
+
+    __hash__ = str.__hash__
+
+    @property
+    def itemsize(self):
+        return {'i4': 4, 'i8': 8, 'f4': 4, 'f8': 8, 'i2': 2, 'bool': 1, '>f4': 4}[str(self)]
+
+    @property
+    def kind(self):
+        return {'i': 'i', 'f': 'f', 'b': 'b', '>': 'f'}[str(self)[0]]
+
+
+def np_scalar(v, dtype):
+    """Concrete element of a numeric lazy array as the numpy scalar real numpy would return."""
+    if isinstance(v, bool):
+        return real_np.bool_(v)
+    if isinstance(v, int):
+        return {'i4': real_np.int32, 'i8': real_np.int64, 'i2': real_np.int16, 'f8': real_np.float64, 'f4': real_np.float32}.get(str(dtype), real_np.int64)(v)
+    if isinstance(v, SymInt) and str(dtype) in ('f8', 'f4') and not v.isfloat:
+        return SymInt(v.t, True)
+    return v
+
+
 class LazyArr:
     lazy = True
 
     def __init__(self, shape, getter=None, kind='prov', dtype='f4', base=None, imap=None, layers=None):
-        self.shape = tuple(shape)
+        self.shape = tuple(fx(d) for d in shape)
         self.getter = getter
         self.kind = kind            # 'prov' (opaque provenance elements) | 'num' (int / SymInt elements)
-        self.dtype = dtype
+        self.dtype = DStr(dtype)
         self.base = base            # view: base array + imap
         self.imap = imap
         self.layers = layers if layers is not None else []
@@ -236,7 +271,7 @@ class LazyArr:
         if all(sp[0] == 'i' for sp in spec):
             v = self.get(tuple(sp[1] for sp in spec))
             if self.kind == 'num':
-                return v
+                return np_scalar(v, self.dtype)
             return LazyArr((), lambda idx, v=v: v, self.kind, self.dtype)
         base, bspec = self._compose(spec)
         shape = tuple(sp[3] for sp in spec if sp[0] == 's')
@@ -429,16 +464,16 @@ class LazyArr:
                                'ge': lambda a, b: a >= b}[op], op)
 
     def __lt__(self, o):
-        r = self._order(o, 'lt'); r.dtype = 'bool'; return r
+        r = self._order(o, 'lt'); r.dtype = DStr('bool'); return r
 
     def __le__(self, o):
-        r = self._order(o, 'le'); r.dtype = 'bool'; return r
+        r = self._order(o, 'le'); r.dtype = DStr('bool'); return r
 
     def __gt__(self, o):
-        r = self._order(o, 'gt'); r.dtype = 'bool'; return r
+        r = self._order(o, 'gt'); r.dtype = DStr('bool'); return r
 
     def __ge__(self, o):
-        r = self._order(o, 'ge'); r.dtype = 'bool'; return r
+        r = self._order(o, 'ge'); r.dtype = DStr('bool'); return r
 
     def _arg_extreme(self, smaller):
         """argmin / argmax of a 1-d integer array (first occurrence), by forking comparisons."""
